@@ -1,6 +1,9 @@
-(* chain: what IS true about release.  The owned iterators are all released when the chain runs to
-   completion, and when the consumer closes it at a yield (chain.aclose: GeneratorExit delivered at
-   the use of an EYield).  Without a fault it never raises. *)
+(* chain and release.  chain.__anext__ closes the owned iterators when advancing fails with anything but
+   the consumer's GeneratorExit; chain.aclose (GeneratorExit delivered at the use of an EYield) closes
+   them itself.  So every owned iterator is released when the chain completes, fails, is cancelled, or
+   is closed at a yield.  What remains false in the MODEL: a GeneratorExit that surfaces at a use that is
+   not a yield (a source's __anext__/aclose "raising GeneratorExit") passes through [run_chain]
+   unhandled. *)
 From Coq Require Import List ZArith NArith Bool Arith Lia.
 Import ListNotations.
 Require Import V.Kernel.Values V.Kernel.Monad V.Kernel.Fn V.Model.Builtins V.Model.Itertools V.Model.Heapq V.Model.Tool.
@@ -9,24 +12,24 @@ Require Import V.Proofs.Steps V.Proofs.Regular V.Proofs.RegularTools V.Proofs.Re
 (* the newest non-aclose event is a yield: the run stopped at a yield *)
 Definition last_is_yield (lg : list event) : bool :=
   match no_closes lg with EYield _ :: _ => true | _ => false end.
-(* the only fault around, if any, is a GeneratorExit *)
-Definition pend_ge (w : world) : Prop :=
-  match pending w with None => True | Some (_, e) => e = XGenExit end.
+(* the only fault around, if any, raises [e0] *)
+Definition pend_is (e0 : exn) (w : world) : Prop :=
+  match pending w with None => True | Some (_, e) => e = e0 end.
 
-(* exceptions only come from the fault; once raised the fault is spent; and if the run then stands
-   at a yield, every owned iterator has been released *)
-Definition chain_inv (owned : list nat) {A} (m : M A) : Prop :=
-  forall w, pend_ge w ->
-    pend_ge (snd (m w)) /\
+(* exceptions only come from the fault and are the fault's; once raised the fault is spent; and if it
+   was a GeneratorExit and the run then stands at a yield, every owned iterator has been released *)
+Definition chain_inv (e0 : exn) (owned : list nat) {A} (m : M A) : Prop :=
+  forall w, pend_is e0 w ->
+    pend_is e0 (snd (m w)) /\
     (pending w = None -> pending (snd (m w)) = None) /\
     (forall e, fst (m w) = Exn e ->
-       pending w <> None /\ pending (snd (m w)) = None /\
-       (last_is_yield (log (snd (m w))) = true -> forall i, In i owned -> rel_at i (snd (m w)))).
+       pending w <> None /\ pending (snd (m w)) = None /\ e = e0 /\
+       (e0 = XGenExit -> last_is_yield (log (snd (m w))) = true -> forall i, In i owned -> rel_at i (snd (m w)))).
 
-Lemma ci_ret owned {A} (a : A) : chain_inv owned (ret a).
-Proof. intros w H. cbn. repeat split; auto; discriminate. Qed.
-Lemma ci_bind owned {A B} (m : M A) (f : A -> M B) :
-  chain_inv owned m -> (forall a, chain_inv owned (f a)) -> chain_inv owned (bind m f).
+Lemma ci_ret e0 owned {A} (a : A) : chain_inv e0 owned (ret a).
+Proof. intros w H. cbn. split; [exact H|]. split; [auto|]. intros e E. discriminate E. Qed.
+Lemma ci_bind e0 owned {A B} (m : M A) (f : A -> M B) :
+  chain_inv e0 owned m -> (forall a, chain_inv e0 owned (f a)) -> chain_inv e0 owned (bind m f).
 Proof.
   intros Hm Hf w Hw. unfold bind. destruct (Hm w Hw) as (H1 & H2 & H3).
   destruct (m w) as [[a|e|] w1]; cbn in *.
@@ -36,42 +39,50 @@ Proof.
   - split; [exact H1|]. split; [exact H2|]. intros e' E. discriminate E.
 Qed.
 
-Lemma ci_pull owned i : chain_inv owned (pull i).
+Lemma ci_pull e0 owned i : chain_inv e0 owned (pull i).
 Proof.
-  intros [ss lg p u]. unfold pend_ge. cbn [pending]. intros Hw. rewrite pull_eq.
+  intros [ss lg p u]. unfold pend_is. cbn [pending]. intros Hw. rewrite pull_eq.
   destruct p as [[[|n] e]|]; cbn - [Nat.ltb].
-  - repeat split; auto; try discriminate.
+  - split; [exact I|]. split; [intros X; discriminate X|]. intros e' E. injection E as <-.
+    split; [discriminate|]. split; [reflexivity|]. split; [exact Hw|]. intros _ Y. discriminate Y.
   - destruct ((0 <? s_closed (nth i ss dead_src)) || s_exh (nth i ss dead_src));
-      [|destruct (s_items (nth i ss dead_src))]; cbn; repeat split; auto; discriminate.
+      [|destruct (s_items (nth i ss dead_src))]; cbn; (split; [exact Hw|]); (split; [intros X; discriminate X|]);
+      intros e' E; discriminate E.
   - destruct ((0 <? s_closed (nth i ss dead_src)) || s_exh (nth i ss dead_src));
-      [|destruct (s_items (nth i ss dead_src))]; cbn; repeat split; auto; discriminate.
+      [|destruct (s_items (nth i ss dead_src))]; cbn; (split; [exact I|]); (split; [reflexivity|]);
+      intros e' E; discriminate E.
 Qed.
 
-Lemma ci_chain_yield owned v : chain_inv owned (chain_yield owned v).
+Lemma ci_chain_yield e0 owned v : chain_inv e0 owned (chain_yield owned v).
 Proof.
-  intros [ss lg p u]. unfold pend_ge. cbn [pending]. intros Hw.
+  intros [ss lg p u]. unfold pend_is. cbn [pending]. intros Hw.
   unfold chain_yield, yield_to, bind, emit, use, set_log. cbn.
   destruct p as [[[|n] e]|]; cbn.
   - subst e.
     pose proof (close_all_releases owned (mkW ss (EYield v :: lg) None (S u))) as R.
     pose proof (close_all_not_fuel owned (mkW ss (EYield v :: lg) None (S u))) as N.
     pose proof (proj1 (wfG_close_all true owned) (mkW ss (EYield v :: lg) None (S u))) as (P & _).
+    pose proof (proj2 (cleanupG_close_all true owned) (mkW ss (EYield v :: lg) None (S u)) eq_refl) as (O & _).
     specialize (P eq_refl).
-    destruct (close_all owned (mkW ss (EYield v :: lg) None (S u))) as [[[]|e|] w2]; cbn in *;
-      repeat split; auto; try discriminate; try rewrite P; auto; congruence.
-  - repeat split; auto; discriminate.
-  - repeat split; auto; discriminate.
+    destruct e0;
+      try (cbn; split; [exact I|]; split; [intros X; discriminate X|]; intros e' E; injection E as <-;
+           split; [discriminate|]; split; [reflexivity|]; split; [reflexivity|]; intros X; discriminate X).
+    destruct (close_all owned (mkW ss (EYield v :: lg) None (S u))) as [[[]|e|] w2]; cbn in *; try discriminate O.
+    split; [rewrite P; exact I|]. split; [intros X; discriminate X|]. intros e' E. injection E as <-.
+    split; [discriminate|]. split; [exact P|]. split; [reflexivity|]. intros _ _. exact R.
+  - split; [exact Hw|]. split; [intros X; discriminate X|]. intros e' E. discriminate E.
+  - split; [exact I|]. split; [reflexivity|]. intros e' E. discriminate E.
 Qed.
 
-Lemma ci_iter_src owned {St} i (body : St -> val -> M (St * bool)) :
-  (forall s x, chain_inv owned (body s x)) -> forall fuel s, chain_inv owned (iter_src fuel i body s).
+Lemma ci_iter_src e0 owned {St} i (body : St -> val -> M (St * bool)) :
+  (forall s x, chain_inv e0 owned (body s x)) -> forall fuel s, chain_inv e0 owned (iter_src fuel i body s).
 Proof.
   intros Hb fuel. induction fuel as [|f IH]; intros s; cbn [iter_src].
-  - intros w H. cbn. repeat split; auto; discriminate.
+  - intros w H. cbn. split; [exact H|]. split; [auto|]. intros e E. discriminate E.
   - apply ci_bind; [apply ci_pull | intros [x|]]; [|apply ci_ret].
     apply ci_bind; [apply Hb | intros r]. destruct (snd r); [apply IH | apply ci_ret].
 Qed.
-Lemma ci_each owned i : chain_inv owned (each i (chain_yield owned)).
+Lemma ci_each e0 owned i : chain_inv e0 owned (each i (chain_yield owned)).
 Proof.
   unfold each. apply ci_bind; [|intros _; apply ci_ret].
   intros w. unfold loop_src. apply ci_iter_src. intros _ x.
@@ -126,10 +137,10 @@ Qed.
 Lemma last_is_yield_close j lg : last_is_yield (EClose j :: lg) = last_is_yield lg.
 Proof. reflexivity. Qed.
 
-Lemma ci_scoped_each owned j : chain_inv owned (scoped j (each j (chain_yield owned))).
+Lemma ci_scoped_each e0 owned j : chain_inv e0 owned (scoped j (each j (chain_yield owned))).
 Proof.
   intros w Hw. unfold scoped.
-  destruct (ci_each owned j w Hw) as (H1 & H2 & H3).
+  destruct (ci_each e0 owned j w Hw) as (H1 & H2 & H3).
   assert (HOK : forall r, fst (each j (chain_yield owned) w) = Ok r ->
                           last_is_yield (log (snd (each j (chain_yield owned) w))) = false).
   { unfold each. rewrite bind_unfold. unfold loop_src.
@@ -137,62 +148,116 @@ Proof.
     destruct (iter_src (S (items_left j w)) j (fun (_ : unit) x => chain_yield owned x;;; ret (tt, true)) tt w)
       as [[r0|e|] w1]; cbn [fst snd ret] in *; try (intros ? X; discriminate X). intros _ _. apply (E r0 eq_refl). }
   destruct (finally_cases (each j (chain_yield owned)) (close j) w) as [[E1 E2]|(E1 & E2 & _ & _)].
-  - rewrite E2. cbn. repeat split; auto; discriminate.
-  - assert (CL : forall w, pend_ge w -> pend_ge (snd (close j w)) /\
+  - rewrite E2. cbn. split; [exact H1|]. split; [exact H2|]. intros e E. discriminate E.
+  - assert (CL : forall w, pend_is e0 w -> pend_is e0 (snd (close j w)) /\
                    (pending w = None -> pending (snd (close j w)) = None) /\
-                   (forall e, fst (close j w) = Exn e -> pending w <> None /\ pending (snd (close j w)) = None)).
-    { clear. intros [ss lg p u]. unfold pend_ge. cbn [pending]. intros Hw.
+                   (forall e, fst (close j w) = Exn e -> pending w <> None /\ pending (snd (close j w)) = None /\ e = e0)).
+    { clear. intros [ss lg p u]. unfold pend_is. cbn [pending]. intros Hw.
       unfold close, bind, get_src, emit, use, set_src, ret, set_log, set_srcs. cbn.
-      destruct (s_acl (nth j ss dead_src)); cbn; [|repeat split; auto; discriminate].
-      destruct p as [[[|n] e]|]; cbn; repeat split; auto; try discriminate. }
+      destruct (s_acl (nth j ss dead_src)); cbn;
+        [|split; [exact Hw|]; split; [auto|]; intros e E; discriminate E].
+      destruct p as [[[|n] e]|]; cbn.
+      - split; [exact I|]. split; [intros X; discriminate X|]. intros e' E. injection E as <-.
+        split; [discriminate|]. split; [reflexivity | exact Hw].
+      - split; [exact Hw|]. split; [intros X; discriminate X|]. intros e' E. discriminate E.
+      - split; [exact I|]. split; [reflexivity|]. intros e' E. discriminate E. }
     destruct (CL _ H1) as (G1 & G2 & G3).
     rewrite E2. split; [exact G1|]. split; [auto|].
     intros e He. unfold finally in He.
-    destruct (each j (chain_yield owned) w) as [[r|e0|] w1] eqn:Em; cbn [fst snd] in *; try congruence.
+    destruct (each j (chain_yield owned) w) as [[r|e1|] w1] eqn:Em; cbn [fst snd] in *; try congruence.
     + (* the body ended normally: an exception can only come from the aclose, not at a yield *)
-      destruct (close j w1) as [[[]|e1|] w2] eqn:Ec; cbn [fst snd] in *; try discriminate.
-      injection He as ->. destruct (G3 e eq_refl) as (K1 & K2).
-      split; [intros P; apply K1; auto|]. split; [exact K2|].
-      intros Y. exfalso. pose proof (close_log j w1) as L. rewrite Ec in L. cbn [snd] in L.
+      destruct (close j w1) as [[[]|e2|] w2] eqn:Ec; cbn [fst snd] in *; try discriminate.
+      injection He as ->. destruct (G3 e eq_refl) as (K1 & K2 & K4).
+      split; [intros P; apply K1; auto|]. split; [exact K2|]. split; [exact K4|].
+      intros _ Y. exfalso. pose proof (close_log j w1) as L. rewrite Ec in L. cbn [snd] in L.
       specialize (HOK r eq_refl). destruct L as [L|L]; rewrite L in Y; [|rewrite last_is_yield_close in Y]; congruence.
     + (* the body raised: the fault is spent, the aclose runs fault-free *)
-      destruct (H3 e0 eq_refl) as (K1 & K2 & K3).
-      split; [exact K1|]. split; [auto|].
-      intros Y i Hi. pose proof (close_log j w1) as L.
+      destruct (H3 e1 eq_refl) as (K1 & K2 & K4 & K3).
+      assert (Ee : e = e1).
+      { destruct (close j w1) as [[[]|e2|] w2] eqn:Ec; cbn [fst snd] in *; try congruence.
+        destruct (G3 e2 eq_refl) as (X & _). congruence. }
+      subst e.
+      split; [exact K1|]. split; [auto|]. split; [exact K4|].
+      intros Hg Y i Hi. pose proof (close_log j w1) as L.
       assert (Y1 : last_is_yield (log w1) = true).
       { destruct L as [L|L]; rewrite L in Y; [|rewrite last_is_yield_close in Y]; exact Y. }
       apply keeps; [apply wfG_close | apply K3; assumption].
 Qed.
 
-Lemma ci_chain_body owned : forall ss, chain_inv owned (chain_body ss (chain_yield owned)).
+Lemma ci_chain_body e0 owned : forall ss, chain_inv e0 owned (chain_body ss (chain_yield owned)).
 Proof.
   induction ss as [|j r IH]; cbn [chain_body]; [apply ci_ret|].
   apply ci_bind; [apply ci_scoped_each | intros _; exact IH].
 Qed.
 
-(* ---------- the consumer-facing statements ---------- *)
-Definition ge_or_none (k_e : option (nat * exn)) : bool :=
-  match k_e with None => true | Some (_, XGenExit) => true | _ => false end.
+(* ---------- run_chain ---------- *)
+Lemma run_chain_cases ss w :
+  (run_chain ss w = chain_body ss (chain_yield ss) w /\
+   forall e, fst (chain_body ss (chain_yield ss) w) = Exn e -> e = XGenExit) \/
+  (exists e, fst (chain_body ss (chain_yield ss) w) = Exn e /\ e <> XGenExit /\
+             snd (run_chain ss w) = snd (close_all ss (snd (chain_body ss (chain_yield ss) w))) /\
+             fst (run_chain ss w) <> Fuel).
+Proof.
+  unfold run_chain. destruct (chain_body ss (chain_yield ss) w) as [[u|e|] w1]; cbn [fst snd].
+  - left. split; [reflexivity|]. intros e E. discriminate E.
+  - pose proof (close_all_not_fuel ss w1) as N.
+    destruct e; try (left; split; [reflexivity|]; intros e E; injection E as <-; reflexivity);
+      right; eexists; (split; [reflexivity|]); (split; [discriminate|]); unfold bind;
+      destruct (close_all ss w1) as [[[]|e'|] w2]; cbn in *; split; auto; try discriminate; congruence.
+  - left. split; [reflexivity|]. intros e E. discriminate E.
+Qed.
 
-(* a chain that is only ever closed by the consumer: it completes, or it is closed at a yield; in
-   both cases every owned iterator is released *)
-Theorem chain_releases_partial : forall n ss k_e, length ss = n -> ge_or_none k_e = true ->
+Definition genexit_fault (k_e : option (nat * exn)) : bool :=
+  match k_e with Some (_, XGenExit) => true | _ => false end.
+Definition fault_exn (k_e : option (nat * exn)) : exn := match k_e with Some (_, e) => e | None => XTypeError end.
+Lemma init_pend_is ss k_e : pend_is (fault_exn k_e) (init_world ss k_e).
+Proof. unfold pend_is. cbn. destruct k_e as [[k e]|]; cbn; auto. Qed.
+
+(* source [i] of a chain is released, from any start world whose only fault raises [e0], provided that
+   -- if that fault is a GeneratorExit -- the run completed or stands at a yield (chain.aclose) *)
+Lemma rel_chain e0 n w i : i < n -> pend_is e0 w ->
+  fst (run_tool (TChain n) w) <> Fuel ->
+  (e0 = XGenExit -> pending w <> None ->
+     is_ok (fst (run_tool (TChain n) w)) || last_is_yield (log (snd (run_tool (TChain n) w))) = true) ->
+  rel_at i (snd (run_tool (TChain n) w)).
+Proof.
+  intros Hi Hw. cbn [run_tool]. rewrite bind_unfold.
+  assert (Hin : In i (seq 0 n)) by (apply in_seq; lia).
+  destruct (ci_chain_body e0 (seq 0 n) (seq 0 n) w Hw) as (_ & _ & H3).
+  pose proof (chain_body_ok_releases (chain_yield (seq 0 n)) (fun v => wfG_chain_yield true _ v) (seq 0 n) w i) as HOk.
+  destruct (run_chain_cases (seq 0 n) w) as [[E Hg]|(e & E1 & E2 & E3 & E4)].
+  - rewrite E. destruct (chain_body (seq 0 n) (chain_yield (seq 0 n)) w) as [[[]|e|] w1]; cbn [fst snd ret] in *.
+    + intros _ _. apply HOk; auto.
+    + intros _ Hc. destruct (H3 e eq_refl) as (K1 & _ & K4 & K3). pose proof (Hg e eq_refl) as ->.
+      apply K3; auto.
+    + intros X. exfalso. apply X. reflexivity.
+  - intros _ _.
+    assert (R : rel_at i (snd (run_chain (seq 0 n) w))) by (rewrite E3; apply close_all_releases, Hin).
+    destruct (run_chain (seq 0 n) w) as [[[]|e'|] w2]; cbn [fst snd ret] in *; auto.
+Qed.
+
+(* ---------- the consumer-facing statements ---------- *)
+(* a chain releases every owned iterator when it completes, fails, or is cancelled (any exception but
+   GeneratorExit, at any use) ... *)
+Theorem chain_releases : forall n ss k_e, length ss = n -> genexit_fault k_e = false ->
   let r := run_tool (TChain n) (init_world ss k_e) in
+  fst r <> Fuel -> all_released (snd r) = true.
+Proof.
+  intros n ss k_e Hn Hk r Hf. apply all_released_intro. intros i Hi. unfold r in *. clear r.
+  rewrite tool_length, init_world_length, Hn in Hi.
+  apply (rel_chain (fault_exn k_e)); auto using init_pend_is.
+  intros Hg. exfalso. destruct k_e as [[k e]|]; cbn in *; [subst e; discriminate Hk | discriminate Hg].
+Qed.
+(* ... and when the consumer closes it (chain.aclose: GeneratorExit at a yield) *)
+Theorem chain_close_releases : forall n ss k, length ss = n ->
+  let r := run_tool (TChain n) (init_world ss (Some (k, XGenExit))) in
   fst r <> Fuel ->
   is_ok (fst r) || last_is_yield (log (snd r)) = true ->
   all_released (snd r) = true.
 Proof.
-  intros n ss k_e Hn Hk r Hf Hy. apply all_released_intro. intros i Hi. unfold r in *. clear r.
+  intros n ss k Hn r Hf Hy. apply all_released_intro. intros i Hi. unfold r in *. clear r.
   rewrite tool_length, init_world_length, Hn in Hi.
-  destruct (fst (run_tool (TChain n) (init_world ss k_e))) as [v|e|] eqn:E; [| |congruence].
-  - eapply rel_chain_ok; eassumption.
-  - cbn [is_ok orb] in Hy. revert E Hy. cbn [run_tool]. unfold run_chain, bind.
-    assert (Hw : pend_ge (init_world ss k_e)).
-    { unfold pend_ge. cbn. destruct k_e as [[k [| | | | | | |]]|]; cbn in Hk; try discriminate; auto. }
-    destruct (ci_chain_body (seq 0 n) (seq 0 n) _ Hw) as (_ & _ & H3).
-    destruct (chain_body (seq 0 n) (chain_yield (seq 0 n)) (init_world ss k_e)) as [[[]|e0|] w1]; cbn in *;
-      try discriminate.
-    intros _ Y. destruct (H3 e0 eq_refl) as (_ & _ & K). apply K; [exact Y | apply in_seq; lia].
+  apply (rel_chain XGenExit); auto. reflexivity.
 Qed.
 
 (* without a fault a chain never raises, and releases everything *)
@@ -200,31 +265,38 @@ Theorem chain_faultfree : forall n ss, length ss = n ->
   let r := run_tool (TChain n) (init_world ss None) in
   fst r <> Fuel -> fst r = Ok VNone /\ all_released (snd r) = true.
 Proof.
-  intros n ss Hn r Hf.
-  assert (E : fst r = Ok VNone).
-  { unfold r in *. revert Hf. cbn [run_tool]. unfold run_chain, bind.
-    destruct (ci_chain_body (seq 0 n) (seq 0 n) (init_world ss None) I) as (_ & _ & H3).
-    destruct (chain_body (seq 0 n) (chain_yield (seq 0 n)) (init_world ss None)) as [[[]|e0|] w1]; cbn in *; auto.
-    - destruct (H3 e0 eq_refl) as (K & _). exfalso. apply K. reflexivity.
-    - congruence. }
-  split; [exact E|]. apply (chain_releases_partial n ss None Hn eq_refl Hf). fold r. rewrite E. reflexivity.
+  intros n ss Hn r Hf. split; [|apply (chain_releases n ss None Hn eq_refl Hf)].
+  unfold r in *. revert Hf. cbn [run_tool]. rewrite bind_unfold.
+  destruct (ci_chain_body XTypeError (seq 0 n) (seq 0 n) (init_world ss None) I) as (_ & _ & H3).
+  destruct (run_chain_cases (seq 0 n) (init_world ss None)) as [[E _]|(e & E1 & _)].
+  - rewrite E. destruct (chain_body (seq 0 n) (chain_yield (seq 0 n)) (init_world ss None)) as [[[]|e0|] w1]; cbn in *; auto.
+    + destruct (H3 e0 eq_refl) as (K & _). exfalso. apply K. reflexivity.
+    + congruence.
+  - destruct (H3 e E1) as (K & _). exfalso. apply K. reflexivity.
 Qed.
 
-(* the hypotheses are satisfiable: a two-iterable chain closed at its first yield *)
+(* a failing first iterable no longer leaks the later ones (the finding, fixed) *)
+Example chain_fail_releases_ex :
+  let r := run_tool (TChain 2) (init_world [[VInt 1]; [VInt 2]] (Some (0, XInj 0 false))) in
+  fst r = Exn (XInj 0 false) /\ all_released (snd r) = true.
+Proof. vm_compute. repeat split. Qed.
+(* cancellation / another exception thrown in at a yield: released as well *)
+Example chain_throw_at_yield_ex :
+  let r := run_tool (TChain 2) (init_world [[VInt 1]; [VInt 2]] (Some (1, XInj 0 true))) in
+  last_is_yield (log (snd r)) = true /\ all_released (snd r) = true.
+Proof. vm_compute. repeat split. Qed.
+(* a two-iterable chain closed at its first yield *)
 Example chain_closed_at_yield_ex :
   let r := run_tool (TChain 2) (init_world [[VInt 1]; [VInt 2]] (Some (1, XGenExit))) in
   fst r = Exn XGenExit /\ last_is_yield (log (snd r)) = true /\ all_released (snd r) = true.
 Proof. vm_compute. repeat split. Qed.
-(* ... and needed: another exception thrown in at the yield, or a close/cancel that reaches the chain
-   while it awaits a source, leaves the later iterables unreleased *)
-Example chain_throw_at_yield_leaks :
-  let r := run_tool (TChain 2) (init_world [[VInt 1]; [VInt 2]] (Some (1, XInj 0 true))) in
-  last_is_yield (log (snd r)) = true /\ all_released (snd r) = false.
-Proof. vm_compute. repeat split. Qed.
-Example chain_cancel_in_pull_leaks :
+(* what is still false in the model: a GeneratorExit surfacing inside a source's __anext__ *)
+Example chain_genexit_in_pull_leaks :
   let r := run_tool (TChain 2) (init_world [[VInt 1]; [VInt 2]] (Some (0, XGenExit))) in
-  fst r = Exn XGenExit /\ all_released (snd r) = false.
+  fst r = Exn XGenExit /\ last_is_yield (log (snd r)) = false /\ all_released (snd r) = false.
 Proof. vm_compute. repeat split. Qed.
 
-Print Assumptions chain_releases_partial.
+Print Assumptions rel_chain.
+Print Assumptions chain_releases.
+Print Assumptions chain_close_releases.
 Print Assumptions chain_faultfree.
